@@ -35,8 +35,46 @@ def load_known():
         return json.load(f).get("findings", [])
 
 
+def import_chain_depth(plan: dict) -> int:
+    """Length of the longest chain of files importing one another in a plan's schema files
+    (file image plus files written by the plan's own operations)."""
+    import posixpath
+    import re
+
+    files = dict((((plan or {}).get("fs") or {}).get("files")) or {})
+    cwd = (((plan or {}).get("fs") or {}).get("cwd")) or "/"
+    for op in (plan or {}).get("ops") or []:
+        if op.get("op") == "write" and isinstance(op.get("text"), str):
+            files[posixpath.normpath(posixpath.join(cwd, op["path"]))] = op["text"]
+    pat = re.compile(r'^[ \t]*import[ \t]+(?:[A-Za-z_][A-Za-z_0-9]*[ \t]+)?"([^"\n]+)"', re.M)
+    edges = {}
+    for path, text in files.items():
+        if not path.endswith(".bitproto") or not isinstance(text, str):
+            continue
+        d = posixpath.dirname(path)
+        edges[path] = [q for q in (posixpath.normpath(posixpath.join(d, m)) for m in pat.findall(text)) if q in files]
+    depth = {}
+    for root in edges:
+        if root in depth:
+            continue
+        stack = [(root, iter(edges.get(root, ())))]
+        onpath = {root}
+        while stack:
+            node, it = stack[-1]
+            nxt = next(it, None)
+            if nxt is None:
+                depth[node] = 1 + max([depth.get(c, 0) for c in edges.get(node, ())] or [0])
+                onpath.discard(node)
+                stack.pop()
+            elif nxt not in depth and nxt not in onpath:
+                onpath.add(nxt)
+                stack.append((nxt, iter(edges.get(nxt, ()))))
+    return max(depth.values() or [0])
+
+
 def known_match(prop, v, known):
-    """An open finding matches only its exact signature AND its triggering construct."""
+    """An open finding matches only its signature class AND its triggering construct
+    (and, where the entry says so, a frame of the recorded traceback)."""
     import re
 
     for k in known:
@@ -47,9 +85,11 @@ def known_match(prop, v, known):
                 continue
         elif k.get("signature") != v["sig"]:
             continue
-        if k.get("trigger_min_files"):
-            nfiles = len((((v.get("plan") or {}).get("fs") or {}).get("files")) or {})
-            if nfiles < int(k["trigger_min_files"]):
+        if k.get("trigger_import_chain_min"):
+            if import_chain_depth(v.get("plan") or {}) < int(k["trigger_import_chain_min"]):
+                continue
+        if k.get("tb_regex") and v.get("tb"):
+            if not re.search(k["tb_regex"], "\n".join(v["tb"])):
                 continue
         pat = k.get("trigger_regex")
         if pat:
@@ -99,6 +139,10 @@ def _main(args) -> int:
 
     base = int(os.environ.get("VERIF_SEED", "1") or 1)
     n = args.seeds or TIERS[prop][args.tier]
+    # the registered evidence file is only written by the registered command on /repo: an ad-hoc
+    # run (other seed count, self-test skipped, another tree) writes next to it, under scratch/
+    adhoc = bool(args.seeds and args.seeds != TIERS[prop][args.tier]) or args.no_selftest or runner.REPO != "/repo"
+    evidence_dir = os.environ.get("VERIF_EVIDENCE_DIR") or (os.path.join(runner.SCRATCH, "evidence-adhoc") if adhoc else EVIDENCE)
     seeds = [derive(base, prop, i) % (1 << 48) for i in range(n)]
     print("check %s tier=%s VERIF_SEED=%d runs=%d jobs=%d tree=%s" % (prop, args.tier, base, n, args.jobs, runner.tree_hash()))
     sys.stdout.flush()
@@ -146,9 +190,10 @@ def _main(args) -> int:
         return r
 
     tree_at_start = runner.tree_hash()
+    t_runs0 = time.monotonic()
     results = runner.pmap(one, seeds, args.jobs)
     done = [r for r in results if r is not None]
-    t_runs = time.monotonic() - t0
+    t_runs = time.monotonic() - t_runs0
     if runner.tree_hash() != tree_at_start:
         raise runner.HarnessFailure("the sources under %s changed while the check was running: results would mix two trees; run it again" % runner.REPO)
 
@@ -158,7 +203,7 @@ def _main(args) -> int:
         extra_info, extra_vs = impl.extra_phase(prop, args.tier, seeds, args.jobs)
 
     # ---- self-test: determinism of the simulator (same seed twice, fresh processes)
-    selftest = {"determinism_seeds": 0, "determinism_ok": True}
+    selftest = {"determinism_seeds": 0, "determinism_ok": None, "skipped": bool(args.no_selftest)}
     if not args.no_selftest and done and not stop["flag"]:
         k = min(SELFTEST[args.tier], len(done))
         again = runner.pmap(lambda s: impl.run_seed(prop, s, impl.new_context(prop, args.tier)), seeds[:k], max(1, args.jobs // 2))
@@ -168,6 +213,7 @@ def _main(args) -> int:
             if da != db:
                 raise runner.HarnessFailure("determinism self-test failed for seed %d: %s vs %s" % (a["seed"], da, db))
         selftest["determinism_seeds"] = k
+        selftest["determinism_ok"] = True  # (a mismatch raised HARNESS-ERROR above)
         extra = impl.selftest(prop, args.tier, seeds, args.jobs)
         selftest.update(extra)
 
@@ -219,9 +265,22 @@ def _main(args) -> int:
         ev["coverage"]["goldens"] = dict(ctx.stats)
     ev["coverage"].update(extra_info)
     ev["coverage"]["regression_replays"] = {"executed": len(reg_files), "reproduced": len(reg_hits)}
+    ev["coverage"]["provenance"] = {
+        "repo": runner.REPO,
+        "tree_hash": tree_at_start,
+        "repo_commit": runner.repo_commit(),
+        "seeds_run": len(done),
+        "seeds_of_tier": TIERS[prop][args.tier],
+        "seeds_overridden": bool(args.seeds and args.seeds != TIERS[prop][args.tier]),
+        "selftest_skipped": bool(args.no_selftest),
+        "stopped_early": bool(stop["flag"]),
+        "jobs": args.jobs,
+        "harness_retries": dict(getattr(impl, "STATS", {})),
+        "wall_s_replays_and_selftests": round(wall - t_runs, 1),
+    }
     ev["violations"] = len(new) + len(reg_hits)
-    os.makedirs(EVIDENCE, exist_ok=True)
-    with open(os.path.join(EVIDENCE, prop + ".json"), "w") as f:
+    os.makedirs(evidence_dir, exist_ok=True)
+    with open(os.path.join(evidence_dir, prop + ".json"), "w") as f:
         json.dump(ev, f, indent=1, sort_keys=True)
     print("%s: runs=%d evaluations=%d distinct_nontrivial=%d violations=%d known=%d wall=%.1fs" % (prop, len(done), ev["coverage"]["evaluations"], ev["coverage"]["distinct_nontrivial"], len(new), len(seen_known), wall))
     return 1 if (new or reg_hits) else 0
